@@ -235,7 +235,7 @@ func RunHistory(rng *common.Rng, cfg Config) (*Run, error) {
 		}
 		// ---- C05 oracle ----
 		restricted := o.Cmd == "store" || o.Cmd == "fetchbody" || o.Cmd == "fetchflagsbody" || o.Cmd == "fetchbadpart" || o.Cmd == "probe" || o.Cmd == "search"
-		permitting := o.Cmd == "noop" || o.Cmd == "check" || o.Cmd == "expunge" || o.Cmd == "move" || o.Cmd == "idle" ||
+		permitting := o.Cmd == "noop" || o.Cmd == "check" || o.Cmd == "status" || o.Cmd == "expunge" || o.Cmd == "move" || o.Cmd == "idle" ||
 			(o.Cmd == "append" && m.Selected && m.Mb == o.Mb)
 		if restricted {
 			if nexp > 0 {
@@ -619,6 +619,9 @@ func RunHistory(rng *common.Rng, cfg Config) (*Run, error) {
 			o = Op{Kind: "cmd", S: s, Cmd: "noop"}
 		case x < 66:
 			o = Op{Kind: "cmd", S: s, Cmd: "check"}
+			if rng.Chance(0.5) {
+				o = Op{Kind: "cmd", S: s, Cmd: "status", Mb: rng.Pick(cfg.NMbox)}
+			}
 		case x < 69:
 			o = Op{Kind: "cmd", S: s, Cmd: "idle"}
 		case x < 73:
